@@ -19,6 +19,7 @@
 4. Second opinions: ssh-keygen -Y verify / -Y sign / -L.
 """
 
+import json
 import os
 import random
 
@@ -80,10 +81,39 @@ def exc_name(exc):
 CERT_IMPORT_STAGES = {'sig', 'type', 'crit', 'ext'}
 
 
+def norm(v):
+    """JSON round trip (tuples -> lists) for comparing rows with a replay."""
+    return json.loads(json.dumps(v, sort_keys=True, default=str))
+
+
+class Only:
+    """--replay PATH: run the same code, restricted to the recorded case."""
+
+    def __init__(self, path):
+        self.rp = None
+        if path:
+            with open(path) as f:
+                self.rp = json.load(f).get('replay') or {}
+            print('replaying', self.rp.get('kind'),
+                  {k: v for k, v in self.rp.items()
+                   if k in ('row', 'alg', 'edit', 'field', 'pos', 'signer')})
+
+    def kind(self, *kinds):
+        return self.rp is None or self.rp.get('kind') in kinds
+
+    def row(self, kind, row):
+        return self.rp is None or (self.rp.get('kind') == kind and
+                                   norm(self.rp.get('row')) == norm(row))
+
+    def alg(self, *names):
+        return self.rp is None or self.rp.get('alg') in names
+
+
 def main(ctx):
     from harness.drivers import sig_cert as D
     quick = ctx.tier == 'quick'
     rnd = random.Random(ctx.seed + 16)
+    only = Only(ctx.replay_path)
     algs = D.algs()
     ctx.require(len(algs) >= 6, f'too few key algorithms available: {algs}')
     exc_hist = {}
@@ -124,9 +154,15 @@ def main(ctx):
     n_acc = 0
     samp = {'acc': False, 'rej': False}
     for ci, (cls, rows) in enumerate(sorted(classes.items())):
+        if only.rp is not None:
+            rows = [r for r in rows if only.row('cert', r[0])]
+            if not rows:
+                continue
         # quick: ed25519 CA for every class + one other algorithm per class
         # (round robin); thorough: every algorithm for every class
-        if quick:
+        if only.rp is not None:
+            use = [a for a in algs if only.alg(a[0])]
+        elif quick:
             use = [algs[0], algs[1 + ci % (len(algs) - 1)]]
         else:
             use = algs
@@ -137,6 +173,8 @@ def main(ctx):
             frac = (ci + ai) % 2 == 1
             for row, verdict, stage in rows:
                 now = (D.NOW_FRAC if frac else D.NOW)[row['now']]
+                if only.rp is not None:
+                    now = only.rp.get('now', now)
                 if cert is None:
                     obs, ostage = 'reject', 'import'
                 else:
@@ -179,10 +217,12 @@ def main(ctx):
                             'example_row': ex[0][0],
                             'rule_verdict': ex[0][1],
                             'rule_stage': ex[0][2]})
-    ctx.require(n_acc > 0, 'no certificate row was accepted by the code')
+    ctx.require(n_acc > 0 or only.rp is not None,
+                'no certificate row was accepted by the code')
 
     # soft spot: value of an unknown extension colliding with a known name
-    for name, cert, exc, expect_opts in D.collision_certs():
+    for name, cert, exc, expect_opts in \
+            (D.collision_certs() if only.rp is None else []):
         ctx.count(('cert-collision', name), nontrivial=True)
         if cert is None:
             ctx.notes.append(
@@ -200,7 +240,7 @@ def main(ctx):
     avail = {a for a, _, _ in algs}
     reps = 1 if quick else 4
     for row, verdict, stage in ver_rows:
-        if row['alg'] not in avail:
+        if row['alg'] not in avail or not only.row('verify', row):
             continue
         for rep in range(reps):
             ok, exc = D.verify_row(row, rnd, cache)
@@ -224,13 +264,19 @@ def main(ctx):
     n_acc = 0
     samp = {'acc': False, 'rej': False}
     for ri, (row, verdict, stage) in enumerate(sig_rows):
+        if not only.row('sshsig', row):
+            continue
         use = [algs[ri % len(algs)]] if quick else algs
+        if only.rp is not None:
+            use = [a for a in algs if a[1] == only.rp.get('alg')][:1]
         for ai, (aname, kalg, sig_alg) in enumerate(use):
-            if aname in ('rsa-sha2-256', 'ssh-rsa') and not quick:
+            if aname in ('rsa-sha2-256', 'ssh-rsa') and not quick and \
+                    only.rp is None:
                 continue            # create_sshsig picks rsa-sha2-512 itself
             if kalg not in worlds:
                 worlds[kalg] = D.SigWorld(kalg)
-            variant = ri + ai
+            variant = ri + ai if only.rp is None else \
+                only.rp.get('variant', 0)
             ok, exc, mat = D.sshsig_row(worlds[kalg], row, variant,
                                         frac=(ri % 3 == 2))
             note_exc('sshsig', exc)
@@ -255,11 +301,14 @@ def main(ctx):
                 ctx.sample({'table': 'sshsig', 'row': row,
                             'rule_verdict': verdict, 'observed': ok,
                             'key': kalg, 'materialised': mat})
-    ctx.require(n_acc > 0, 'no SSHSIG row was accepted by the code')
+    ctx.require(n_acc > 0 or only.rp is not None,
+                'no SSHSIG row was accepted by the code')
 
     # ---- 3. byte sweeps -----------------------------------------------------
     masks = D.MASKS_QUICK if quick else D.MASKS_THOROUGH
     for aname, kalg, sig_alg in algs:
+        if not (only.kind('sweep-sig', 'sweep-cert') and only.alg(aname)):
+            continue
         fields_hit = {}
         for what, pos, ok, exc in D.sweep_signature(kalg, sig_alg, masks):
             note_exc('sweep-sig', exc)
@@ -301,6 +350,8 @@ def main(ctx):
                                              ('ed25519', 'ecdsa256',
                                               'rsa-sha2-512')]
     for aname, kalg, sig_alg in sweep_sig_algs:
+        if not (only.kind('sweep-sshsig') and only.alg(kalg)):
+            continue
         if kalg not in worlds:
             worlds[kalg] = D.SigWorld(kalg)
         for signer in ('key', 'cert_ok'):
@@ -322,11 +373,12 @@ def main(ctx):
                                           'signer': signer, 'pos': pos})
 
     # ---- 4. second opinions --------------------------------------------------
-    scr = D.Scratch(tlc.WORK, 'c16_keygen_')
-    try:
-        second_opinions(ctx, D, scr, algs, worlds, sig_rows, rnd, quick)
-    finally:
-        scr.close()
+    if only.rp is None:
+        scr = D.Scratch(tlc.WORK, 'c16_keygen_')
+        try:
+            second_opinions(ctx, D, scr, algs, worlds, sig_rows, rnd, quick)
+        finally:
+            scr.close()
 
     ctx.notes.append(f'exceptions seen on refused inputs: {exc_hist}')
     import asyncssh
